@@ -267,9 +267,17 @@ const prelude = `(set-option :produce-models true)
 `
 
 func (s *SMT) Query(prefix int, extra ...string) string {
+	return s.QueryDecls(prefix, nil, extra...)
+}
+
+func (s *SMT) QueryDecls(prefix int, moreDecls []string, extra ...string) string {
 	var b strings.Builder
 	b.WriteString(prelude)
 	for _, d := range s.decls {
+		b.WriteString(d)
+		b.WriteByte('\n')
+	}
+	for _, d := range moreDecls {
 		b.WriteString(d)
 		b.WriteByte('\n')
 	}
